@@ -234,7 +234,7 @@ pub fn rst_on_drop(stream: &TcpStream) {
 }
 
 pub async fn listen() -> io::Result<(TcpListener, SocketAddr)> {
-    let l = TcpListener::bind("127.0.0.1:0").await?;
+    let l = TcpListener::bind(crate::util::lo0().as_str()).await?;
     let a = l.local_addr()?;
     Ok((l, a))
 }
